@@ -1412,6 +1412,10 @@ private:
       return;
     }
 
+    // report any dropped messages of the contexts we are about to remove. This function is also
+    // called after a flush request, where the failure counters have not been checked
+    _check_failure_counter(_options.error_notifier);
+
     auto find_invalid_and_empty_thread_context_callback = [](ThreadContext* thread_context)
     {
       // If the thread context is invalid it means the thread that created it has now died.
